@@ -13,6 +13,7 @@ import Driver.C03
 import Driver.C14
 import Driver.C04
 import Driver.C16
+import Driver.C01
 open Driver
 
 def dispatch (line : String) : String :=
@@ -32,6 +33,8 @@ def dispatch (line : String) : String :=
   | "monitor" :: args => C11.monitorOp args
   | "schedmon" :: args => C11.schedmonOp args
   | "depcheck" :: args => C20.depcheck args
+  | "loadverdicts" :: args => C01.loadverdicts args
+  | "loadcheck" :: args => C01.loadcheck args
   | "seriesverdict" :: args => C16.seriesverdict args
   | "canjoin" :: args => C04.canjoin args
   | "lfanalyse" :: args => C04.lfanalyse args
